@@ -162,7 +162,10 @@ Answers(f) ==
                    : p \in RangePairs} ]
 
 -----------------------------------------------------------------------------
-(* Sanity of the oracle itself (checked by TLC on every state of both uses) *)
+(* Sanity of the specification itself.  TypeOK and Registered are checked  *)
+(* on every generated history; the laws in Sanity tie the query operators  *)
+(* to one another and are checked on every state of the oracle runs of the *)
+(* exhaustive universes.                                                   *)
 
 RECURSIVE SumC(_)
 SumC(R) == IF R = {} THEN 0 ELSE LET r == CHOOSE x \in R : TRUE IN r.c + SumC(R \ {r})
